@@ -327,7 +327,7 @@ def graph_poly(g, maxterms=2_000_000):
     return poly_clean(result[0]), result[1]
 
 
-def graph_structure_ok(g):
+def graph_structure_ok(g, allow_dead_ends=False):
     """Independent structural checker of an operator graph; returns None or a description."""
     for k, node in g.nodes.items():
         if node.nid != k:
@@ -374,6 +374,9 @@ def graph_structure_ok(g):
                 queue.append(t)
     if len(depth) != len(g.nodes):
         return 'nodes unreachable from the start terminal'
+    if allow_dead_ends:
+        # the library's own consistency check accepts nodes without outgoing edges (dead ends: they denote nothing); graphs built that way on purpose
+        return None
     for nid, node in g.nodes.items():
         if nid != g.nid_terminal[1] and not node.eids[1]:
             return f'dangling node {nid} (no out-edge)'
